@@ -1760,3 +1760,42 @@ def notsafe_cut_of_elements_selected_by_raw_helper(module: Node, listed: list[No
     for name in _helper_below_by_raw_prefix(module, listed):
         labels[name] = alias + name[len(module) :]
     return labels
+
+
+def _helper_containing_by_whole_components(module: Node, candidates: list[Node]):
+    for candidate in candidates:
+        if module == candidate or module.startswith(f"{candidate}."):
+            yield candidate
+
+
+def safe_cut_at_prefix_yielded_by_filtering_generator(module: Node, candidates: list[Node], aliases: dict[str, str]) -> str:
+    for aliased in _helper_containing_by_whole_components(module, candidates):
+        remainder = module[len(aliased) :]
+        return aliases[aliased] + remainder
+    return module
+
+
+def _helper_containing_by_raw_prefix(module: Node, candidates: list[Node]):
+    for candidate in candidates:
+        if module.startswith(candidate):
+            yield candidate
+
+
+def notsafe_cut_at_prefix_yielded_by_raw_generator(module: Node, candidates: list[Node], aliases: dict[str, str]) -> str:
+    for aliased in _helper_containing_by_raw_prefix(module, candidates):
+        remainder = module[len(aliased) :]
+        return aliases[aliased] + remainder
+    return module
+
+
+def _helper_yields_every_candidate(module: Node, candidates: list[Node]):
+    for candidate in candidates:
+        if module == candidate or module.startswith(f"{candidate}."):
+            yield candidate
+        yield candidate
+
+
+def notsafe_cut_at_prefix_yielded_unconditionally(module: Node, candidates: list[Node], aliases: dict[str, str]) -> str:
+    for aliased in _helper_yields_every_candidate(module, candidates):
+        return aliases[aliased] + module[len(aliased) :]
+    return module
